@@ -4,7 +4,7 @@ kept in notes/seeded_round1_firstpass.json and notes/seeded_round2_firstpass.jso
 import json, glob, os, re
 ROOT = os.path.dirname(os.path.dirname(os.path.abspath(__file__)))
 first = {}
-for f in ("notes/seeded_round1_firstpass.json", "notes/seeded_round2_firstpass.json"):
+for f in ("notes/seeded_round1_firstpass.json", "notes/seeded_round2_firstpass.json", "notes/seeded_round3_firstpass.json"):
     p = os.path.join(ROOT, f)
     if os.path.exists(p):
         for r in json.load(open(p)):
